@@ -328,3 +328,70 @@ func init() {
 		}
 	}
 }
+
+func intlist(x any) []int {
+	var out []int
+	for _, e := range abs.List(x) {
+		out = append(out, abs.I(e))
+	}
+	return out
+}
+
+func init() {
+	extraScripts["rembdec"] = func(s *exec.State, rec abs.V) {
+		s.Reset()
+		s.RembDecode(abs.I(rec["exp"]), intlist(rec["ms"]))
+	}
+	extraScripts["rembenc"] = func(s *exec.State, rec abs.V) {
+		brs := abs.List(rec["brs"])
+		for i := 0; i < len(brs); i += 64 {
+			j := i + 64
+			if j > len(brs) {
+				j = len(brs)
+			}
+			s.Reset()
+			s.RembEncode(brs[i:j])
+		}
+	}
+	extraOps["rembdec"] = func(s *exec.State, ev abs.V) { s.RembDecode(abs.I(ev["exp"]), intlist(ev["args"])) }
+	extraOps["rembenc"] = func(s *exec.State, ev abs.V) { s.RembEncode(abs.List(ev["args"])) }
+	// random wire pairs and float inputs (dense around powers of two and mantissa carries)
+	drivers["rembrand"] = func(s *exec.State, g *gen.G, n int) {
+		for i := 0; i < n; i++ {
+			s.Reset()
+			ms := make([]int, 64)
+			for j := range ms {
+				switch g.R.Intn(4) {
+				case 0:
+					ms[j] = 1 << uint(g.R.Intn(18))
+				case 1:
+					ms[j] = (1 << uint(1+g.R.Intn(18))) - 1
+				default:
+					ms[j] = g.R.Intn(1 << 18)
+				}
+			}
+			s.RembDecode(g.R.Intn(64), ms)
+			brs := make([]any, 64)
+			for j := range brs {
+				e := g.R.Intn(255)
+				f := g.R.Intn(1 << 23)
+				switch g.R.Intn(5) {
+				case 0:
+					f = g.Pick(0, 1, 2, 63, 64, 65, 0x7FFFFF, 0x7FFFFE, 0x7FFFC0, 0x7FFFBF, 0x7FFFE0)
+				case 1:
+					f = (g.R.Intn(1<<17) << 6) | g.Pick(0, 1, 32, 63) // around 18-bit representable values
+				case 2:
+					e = g.Pick(0, 1, 127, 143, 144, 145, 150, 206, 207, 208, 254)
+				}
+				brs[j] = abs.V{"s": 0, "e": e, "f": f}
+			}
+			s.RembEncode(brs)
+			// SSRC lists of every length through the packet API
+			if i%4 == 0 {
+				v := g.REMB()
+				v["ssrcs"] = g.U32s(g.R.Intn(256))
+				scriptRT(s, v)
+			}
+		}
+	}
+}
